@@ -251,7 +251,7 @@ let scan_with mode line =
       if List.length input < 8 then "NO_RDH0"
       else begin
         let c = parse_scfg src filter skip in
-        let o = match mode with `Impl -> scan_impl c input | `Fixed -> scan true c input in
+        let o = match mode with `Impl -> scan_impl c input | `Fixed -> scan true true c input in
         let bs = List.map (fun b -> String.concat " " (List.map fmt_cdp b)) o.so_batches in
         (if bs = [] then "-" else String.concat " / " bs) ^ " | " ^ String.concat " " (List.map fmt_instat o.so_stats)
         ^ (match o.so_end with End_fuel -> " | FUEL" | _ -> "")
